@@ -362,6 +362,21 @@ func c16(env *Env, job *E2Job, T []byte, scan rig.ScanResult, c int64, k int, to
 		tailClass = "torn"
 	}
 	cls := fmt.Sprintf("index=%s|tail=%s", variant, tailClass)
+	// cause-level class for everything that goes wrong AFTER Initialize accepted the tape: a stale index that is taken as
+	// is (D18), or a tail that is torn / off the block grid (D13). Only a clean tail with an absent or current index gets
+	// the precise class (where the unchanged code is right, any failure is new).
+	afterOpen := func(verdict, extra string) string {
+		switch {
+		case variant == "stale":
+			return "C16|after-open|cause=stale-index-accepted"
+		case tailClass != "clean":
+			return "C16|after-open|cause=damaged-tail|index=" + variant
+		}
+		if extra != "" {
+			extra = "|" + extra
+		}
+		return fmt.Sprintf("C16|%s|%s%s", verdict, cls, extra)
+	}
 	// what does a from-scratch rebuild of these bytes show?
 	rb, s0, why := rebuildBytes(env, job.Cfg, img, true)
 	if s0 != nil {
@@ -401,7 +416,7 @@ func c16(env *Env, job *E2Job, T []byte, scan rig.ScanResult, c int64, k int, to
 	}
 	if why2 == "" && rb2 != nil {
 		if shape, detail := diffTrees(got, rb2.tree, true, func(string) string { return "entry" }); len(shape) > 0 {
-			viol(fmt.Sprintf("C16|not-faithful|%s", cls), where+"\nInitialize succeeded, but the file system differs from a from-scratch rebuild of the same tape:\n  "+strings.Join(detail, "\n  "))
+			viol(afterOpen("not-faithful", ""), where+"\nInitialize succeeded, but the file system differs from a from-scratch rebuild of the same tape:\n  "+strings.Join(detail, "\n  "))
 			return
 		}
 	}
@@ -414,13 +429,13 @@ func c16(env *Env, job *E2Job, T []byte, scan rig.ScanResult, c int64, k int, to
 		return
 	}
 	if werr != nil {
-		viol(fmt.Sprintf("C16|followup-write-fails|%s|%s", cls, NormErr(werr)), where+"\nwriting /zz after a successful Initialize failed: "+werr.Error())
+		viol(afterOpen("followup-write-fails", NormErr(werr)), where+"\nwriting /zz after a successful Initialize failed: "+werr.Error())
 		return
 	}
 	b, rerr := rig.ReadFile(st.FS, "/zz")
 	vsync.Quiesce()
 	if rerr != nil || string(b) != "new" {
-		viol(fmt.Sprintf("C16|followup-not-retrievable|%s", cls), where+fmt.Sprintf("\n/zz written after Initialize reads back %q, %v", b, rerr))
+		viol(afterOpen("followup-not-retrievable", ""), where+fmt.Sprintf("\n/zz written after Initialize reads back %q, %v", b, rerr))
 		return
 	}
 	rb3, s3, why3 := rebuildBytes(env, job.Cfg, readTape(st), true)
@@ -428,11 +443,11 @@ func c16(env *Env, job *E2Job, T []byte, scan rig.ScanResult, c int64, k int, to
 		s3.Close()
 	}
 	if why3 != "" || rb3 == nil {
-		viol(fmt.Sprintf("C16|followup-rebuild-%s|%s", strings.SplitN(why3, ":", 2)[0], cls), where+"\nrebuilding after the follow-up write: "+why3)
+		viol(afterOpen("followup-rebuild-"+strings.SplitN(why3, ":", 2)[0], ""), where+"\nrebuilding after the follow-up write: "+why3)
 		return
 	}
 	if e, ok := rb3.byP["/zz"]; !ok || e.Data != rig.DataKey([]byte("new")) || e.Err != "" {
-		viol(fmt.Sprintf("C16|followup-lost-on-rebuild|%s|rebuild-err=%v", cls, rb3.err != nil), where+fmt.Sprintf("\n/zz written after Initialize is not retrievable after a rebuild (rebuild error: %v; entry: %+v)", rb3.err, e))
+		viol(afterOpen("followup-lost-on-rebuild", fmt.Sprintf("rebuild-err=%v", rb3.err != nil)), where+fmt.Sprintf("\n/zz written after Initialize is not retrievable after a rebuild (rebuild error: %v; entry: %+v)", rb3.err, e))
 	}
 }
 
